@@ -2,7 +2,7 @@
    spellings and outside the known classes, the walk of cargo_toml.rs reports exactly the dependencies the
    document declares, each located inside its version string. *)
 From Coq Require Import ZArith Lia.
-From VL Require Import Lib.Bytes Lib.Text Lib.Cst Gen.GenParsers Model.Walks Spec.TomlDoc Proofs.JsonWalkProofs.
+From VL Require Import Lib.Bytes Lib.Text Lib.Cst Gen.GenParsers Model.Walks Spec.TomlDoc Proofs.JsonWalkProofs Proofs.TrimLemmas.
 
 (* ---------- unfolding one level ---------- *)
 Definition tkids_of (content : bytes) (ch : list node) : list (node * tden) := map (fun c => (c, denote_tnode content c)) ch.
@@ -289,7 +289,7 @@ Lemma plain_here_quoted lit content sb eb : plain_here lit content tk_quoted_key
 Proof. reflexivity. Qed.
 Lemma key_node lit content kn k : denote_tnode content kn = TDKey k -> plain_toml_gen lit content kn = true ->
   exists text, node_text content kn = Some text /\ k = split_on 46 text /\ existsb (beq []) k = false
-  /\ ((n_kind kn = tk_bare_key /\ k = [text]) \/ (n_kind kn = tk_dotted_key /\ (2 <= length k)%nat)).
+  /\ ((n_kind kn = tk_bare_key /\ k = [text]) \/ (n_kind kn = tk_dotted_key /\ (2 <= length k)%nat /\ plain_key_text text = true)).
 Proof.
   intros H Hp. pose proof (tnode_shape content kn) as S. rewrite H in S. cbn [shape_of] in S.
   destruct kn as [kd f sb eb r c m ch]. cbn [n_kind] in *. rewrite denote_tnode_eq in H. rewrite plain_toml_eq in Hp.
@@ -303,7 +303,7 @@ Proof.
   - rewrite tstep_dotted in H. rewrite plain_here_dotted in Hp. destruct (slice content sb eb) as [text|]; [|discriminate].
     destruct (parse_key_text text) as [[|k1 [|k2 r2]]|] eqn:Ek; try discriminate. injection H as <-.
     destruct (parse_key_plain _ _ Hp Ek) as [E1 E2]. exists text. repeat split; try assumption.
-    right. split; [reflexivity|]. cbn [length]. lia.
+    right. split; [reflexivity|]. split; [cbn [length]; lia|exact Hp].
 Qed.
 
 (* ---------- values are not keys; what a value node looks like to the walk ---------- *)
@@ -357,11 +357,11 @@ Proof.
   - cbn [concat_opt]. rewrite (skip_scan_toks _ _ Dr).
     assert (skip_scan content en = Some []) as -> by (unfold skip_scan, kind_is; now rewrite Eb).
     assert (skip_scan content vn = Some []) as -> by (unfold skip_scan, kind_is; now rewrite Vb).
-    destruct Hkind as [[Kb ->]|[Kd Hl]].
+    destruct Hkind as [[Kb ->]|[Kd [Hl Hplain]]].
     + unfold skip_scan, kind_is. rewrite Kb. cbn. rewrite Ht. reflexivity.
     + unfold skip_scan, kind_is. rewrite Kd. cbn. destruct k as [|a [|b r]]; cbn [length] in Hl; try lia. reflexivity.
   - cbn [scan_version_pair]. unfold kind_is. rewrite Eb, Es, Vb. cbn [andb]. 
-    destruct Hkind as [[Kb ->]|[Kd Hl]].
+    destruct Hkind as [[Kb ->]|[Kd [Hl Hplain]]].
     + rewrite Kb. change (beq tk_bare_key k_bare_key) with true. cbv iota. rewrite Ht. cbn [bind].
       cbn [path_eqb list_eqb]. rewrite andb_true_r. change w_version with k_version.
       destruct v as [s| |l|l].
@@ -538,7 +538,7 @@ Proof.
   unfold cargo_pair, kind_is. rewrite Hk. change (beq tk_pair k_pair) with true. cbn [negb]. rewrite Hch. cbn [fold_opt].
   assert (forall st, cargo_pair_step content st en = Some st) as Sen.
   { intros st. unfold cargo_pair_step, kind_is. now rewrite Eb, Ed, Es, Ei. }
-  destruct Hkind as [[Kb ->]|[Kd Hl]].
+  destruct Hkind as [[Kb ->]|[Kd [Hl Hplain]]].
   - (* name = "..." / name = { .. } *)
     assert (forall st, cargo_pair_step content st kn = Some (mkPS (Some text) (ps_ver st) (ps_dotted st) (ps_suffix st))) as Skn.
     { intros st. unfold cargo_pair_step, kind_is. rewrite Kb. change (beq tk_bare_key k_bare_key) with true. cbv iota. now rewrite Ht. }
@@ -571,9 +571,20 @@ Proof.
     pose proof (split_once_split_on 46 text) as Hso. destruct (split_once 46 text) as [[pfx sfx]|] eqn:Eso.
     2:{ rewrite Hso in Hsp. discriminate. }
     destruct Hso as [Hso _]. rewrite Hso in Hsp. injection Hsp as -> Hrest.
+    assert (trim pfx = pfx /\ trim sfx = sfx) as [Tp Ts].
+    { pose proof (split_once_aux_spec 46 text []) as Hsp'. unfold split_once in Eso. rewrite Eso in Hsp'. destruct Hsp' as [p' [Ep [_ Et]]]. cbn [rev app] in Ep. subst p'.
+      assert (forallb printable text = true) as Hpr.
+      { unfold plain_key_text in Hplain. rewrite forallb_forall in Hplain |- *. intros c0 Hc0. specialize (Hplain c0 Hc0).
+        unfold printable. unfold is_bare_char, is_alnum, is_alpha, is_upper, is_lower, is_digit in Hplain.
+        repeat match goal with H : _ || _ = true |- _ => apply orb_true_iff in H as [H|H] end;
+        repeat match goal with H : _ && _ = true |- _ => apply andb_true_iff in H as [? H] end;
+        repeat match goal with H : (_ <=? _) = true |- _ => apply N.leb_le in H | H : (_ =? _) = true |- _ => apply N.eqb_eq in H end;
+        apply andb_true_iff; split; apply N.ltb_lt; lia. }
+      rewrite Et, forallb_app in Hpr. apply andb_true_iff in Hpr as [H1 H2]. cbn [forallb] in H2. apply andb_true_iff in H2 as [_ H2].
+      split; now apply trim_printable. }
     assert (forall st, cargo_pair_step content st kn = Some (mkPS (Some pfx) (ps_ver st) true (Some sfx))) as Skn.
     { intros st. unfold cargo_pair_step, kind_is. rewrite Kd. change (beq tk_dotted_key k_bare_key) with false. change (beq tk_dotted_key k_dotted_key) with true. cbv iota.
-      rewrite Ht. cbn [bind]. unfold split_once_dot. now rewrite Eso. }
+      rewrite Ht. cbn [bind]. unfold split_once_dot. now rewrite Eso, Tp, Ts. }
     rewrite Skn. cbn [bind ps_ver]. rewrite Sen. cbn [bind].
     unfold cargo_pair_step at 1, kind_is. rewrite Vb, Vd. cbn [ps_dotted ps_suffix andb opt_eqb].
     destruct v as [s| |lv|m].
@@ -998,7 +1009,7 @@ Proof.
   unfold kind_is in Ka, Va.
   split.
   - cbn [py_key_scan]. unfold kind_is. rewrite Eb, Ea, Vb, Va, Ka. cbn [andb]. repeat rewrite (py_scan_toks _ _ _ _ Dr).
-    destruct Hkind as [[Kb ->]|[Kd Hl]].
+    destruct Hkind as [[Kb ->]|[Kd [Hl Hplain]]].
     + rewrite Kb. change (beq tk_bare_key k_bare_key) with true. cbv iota. rewrite Ht. cbn [bind].
       cbn [path_eqb list_eqb]. rewrite andb_true_r.
       destruct v as [s| |vs|m]; cbn [andb array_reqs]; try (repeat rewrite (py_scan_toks _ _ _ _ Dr); exists []; split; [reflexivity|now destruct (beq text key)]).
